@@ -71,7 +71,8 @@ CHECKS = {
              "C03_parent_guarded (exact boundary for the parent setter under any fault oracle), validation refusals and "
              "_pre_detach_children veto of the children setter/deleter, and five _refuted theorems with witnesses "
              "computed on the faithful model; a positive boundary inside the attach phase: a veto by "
-             "_pre_attach_children alone is rolled back completely (C03_children_pre_attach_veto_restores, using the "
+             "_pre_attach_children alone, or by the _pre_attach of the first new child while it has no parent, is rolled "
+             "back completely (C03_children_pre_attach_veto_restores, C03_children_first_pre_attach_veto_restores, using the "
              "oracle-extensionality lemmas of Proofs/FaultExt.v). Tie: every forest <= 3 nodes x every call x every single fault position x "
              "persistent pre-hook vetoes x sampled doubles; spec 'refusal/pre-veto => links unchanged' evaluated in Coq "
              "on observed states; failures must fall in a listed class AND equal the model, else VIOLATION.",
